@@ -269,6 +269,12 @@ func runC16e2e(c string) string {
 	}
 	ch := make(chan rr, 1)
 	ctx := context.Background()
+	if cfg.nomach {
+		// no machine will ever come: whatever the invocation needs a machine for never happens
+		var cancel context.CancelFunc
+		ctx, cancel = context.WithTimeout(ctx, 6*time.Second)
+		defer cancel()
+	}
 	go func() {
 		defer func() {
 			if e := recover(); e != nil {
